@@ -4,4 +4,4 @@ from vlib.checks import loops
 
 def run(ctx):
     loops.model(ctx)
-    loops.run_profiles(ctx, ["c09", "c09big"], 2500, 40000, "c09")
+    loops.run_profiles(ctx, ["c09", "c09big"], 2500, 15000, "c09")
